@@ -69,6 +69,12 @@ CHECKS['C04'] = (
     'topology/ports/initial state) of composites with state-dependent but commuting updates whose trajectories must be identical.',
     'Derivers are not permuted (order-sensitive by specification). Updates are integer accumulates / sets on distinct variables.')
 
+CHECKS['C05'] = (
+    'Hypothesis-generated step DAGs, derivers and nesting; history invariant over the event log against a reference longest-path layering (stamps seen by each step)',
+    'Generated search over DAG shapes, deriver placements, nesting depths and schedules; each step records the done-stamps it sees, so missing/'
+    'duplicated runs, wrong order, updates applied too late/early within a phase and phases at the wrong moment are detected for every generated flow.',
+    'Trusts vv/ref/layers.py. Order between derivers of the two dictionaries not asserted; ".." flow dependencies rejected at construction are counted, not flagged. <=7 flow steps, <=4 derivers, depth <=2.')
+
 NOT_YET = 'check not built yet in this session (planned, see DESIGN.md section 8)'
 
 
